@@ -4,7 +4,7 @@ from checks import _cl
 
 # the bookkeeping theorems of C04 (incl. the pinned crossing conventions of the regenerated swap helpers) are supporting
 # obligations: pricing, custody and fee accrual all read the active liquidity they maintain
-MODULES = ["SunriseVerif.Props.C05", "SunriseVerif.Props.C05Loop", "SunriseVerif.Props.C05Store", "SunriseVerif.Props.C05Round", "SunriseVerif.Props.C04"]
+MODULES = ["SunriseVerif.Props.C05", "SunriseVerif.Props.C05Loop", "SunriseVerif.Props.C05Store", "SunriseVerif.Props.C05Round", "SunriseVerif.Props.C05Round2", "SunriseVerif.Props.C04"]
 
 
 def run(ctx):
